@@ -821,7 +821,9 @@ func fidApply(calls []fidCall, api fidMultiAPI) {
 type fidMulti struct {
 	kind      string
 	items     []fidKVs // key -> values configured (all of them must arrive)
-	dropped   []fidKV  // a value configured first and then overridden by a Set of the same key
+	dropped   []fidKV  // the value(s) of one key added first (once, twice or three times) and then overridden by a Set of that key
+	overrider string   // the call that overrides them
+	level     string   // client | request
 	calls     []fidCall
 	mapSetter bool // a map-taking setter was given two or more keys
 }
@@ -1057,10 +1059,31 @@ func (g *fidGen) keys(pool []string, n int) []string {
 
 func (g *fidGen) multi(kind string, pool, alpha []string, tag string, structOK, conv bool) *fidMulti {
 	s := g.s
-	m := &fidMulti{kind: kind}
+	m := &fidMulti{kind: kind, level: "request"}
+	if tag == "C" || tag == "D" {
+		m.level = "client"
+	}
 	way := 2
 	if !conv {
 		way = s.Draw(5) // 0 add · 1 set · 2 set with a map · 3 add with a map · 4 struct
+	}
+	// addOld: a key is added once, twice or three times (one by one or with the multi-map setter) before a
+	// setter documented to override previously set values names it again: none of these may arrive.
+	// (Not with a Config: the Request it configures is acquired inside the call.)
+	addOld := func(k string) {
+		n := simrt.PickS(s, 1, 2, 3, 2)
+		var olds []string
+		for i := 1; i <= n; i++ {
+			olds = append(olds, "old"+strconv.Itoa(i)+fidSep+tag)
+			m.dropped = append(m.dropped, fidKV{k, olds[i-1]})
+		}
+		if n > 1 && s.Chance(400) {
+			m.calls = append(m.calls, fidCall{op: "addmap", mm: map[string][]string{k: olds}})
+			return
+		}
+		for _, v := range olds {
+			m.calls = append(m.calls, fidCall{op: "add", k: k, v: v})
+		}
 	}
 	if way == 4 && !structOK {
 		way = 3
@@ -1081,6 +1104,10 @@ func (g *fidGen) multi(kind string, pool, alpha []string, tag string, structOK, 
 		m.items = append(m.items, fidKVs{names[0], []string{sv}}, fidKVs{names[1], []string{strconv.Itoa(iv)}})
 		if len(lv) > 0 {
 			m.items = append(m.items, fidKVs{names[2], lv})
+		}
+		if s.Chance(250) {
+			addOld(names[0])
+			m.overrider = fidCall{op: "struct", st: st}.describe(kind)
 		}
 		m.calls = append(m.calls, fidCall{op: "struct", st: st})
 		way = 0
@@ -1107,11 +1134,9 @@ func (g *fidGen) multi(kind string, pool, alpha []string, tag string, structOK, 
 		}
 	}
 	override := func() {
-		// a value that a later Set of the same key replaces
-		if !conv && len(single) > 0 && s.Chance(250) {
-			old := fidKV{single[0].k, "old" + fidSep + tag}
-			m.dropped = append(m.dropped, old)
-			m.calls = append(m.calls, fidCall{op: "add", k: old.k, v: old.v})
+		if !conv && len(single) > 0 && len(m.dropped) == 0 && s.Chance(300) {
+			addOld(single[0].k)
+			m.overrider = "?"
 		}
 	}
 	multiFirst := !conv && s.Chance(500) // the keys are distinct: the order of the calls must not matter
@@ -1125,8 +1150,11 @@ func (g *fidGen) multi(kind string, pool, alpha []string, tag string, structOK, 
 			multi = nil
 		}
 		override()
-		for _, e := range single {
+		for i, e := range single {
 			m.calls = append(m.calls, fidCall{op: "set", k: e.k, v: e.vs[0]})
+			if i == 0 && m.overrider == "?" {
+				m.overrider = m.calls[len(m.calls)-1].describe(kind)
+			}
 		}
 		addAll(multi)
 	case 2:
@@ -1142,6 +1170,9 @@ func (g *fidGen) multi(kind string, pool, alpha []string, tag string, structOK, 
 			}
 			m.calls = append(m.calls, fidCall{op: "setmap", m1: mp})
 			m.mapSetter = len(single) >= 2
+			if m.overrider == "?" {
+				m.overrider = m.calls[len(m.calls)-1].describe(kind)
+			}
 		}
 		addAll(multi)
 	case 3:
@@ -1905,7 +1936,12 @@ func clientFidelity(s *simrt.Sim, info *harness.RunInfo) {
 			}
 			for _, d := range m.dropped {
 				if count(got[d.k], d.v) > 0 {
-					fail("override", "%s: %s %q was added as %q and then set (overriding, per the documentation) to another value, but %q still arrived: %q", tok, comp, d.k, d.v, d.v, got[d.k])
+					// one earlier value: the plain case; several earlier values: one id per component and level
+					id := "override"
+					if len(m.dropped) > 1 {
+						id = "override." + comp + "-" + m.level
+					}
+					fail(id, "%s: %s-level %s %q was added %d time(s) and then overridden with %s (documented to override the previously set values), but %q still arrived: the server saw %q", tok, m.level, comp, d.k, len(m.dropped), m.overrider, d.v, got[d.k])
 				}
 			}
 		}
